@@ -39,7 +39,7 @@ func iterate(reader pebble.Reader, req *regattapb.RequestOp_Range) (iter.Seq[*re
 				panic(err)
 			}
 			if i == limit && limit != 0 {
-				response.More = piter.Next()
+				response.More = true
 				yield(response)
 				return
 			}
